@@ -30,7 +30,7 @@ CHECKS.update({
    text="GribiServer models one received message per step with the election/client snapshot taken once per request; TLC checks OnlyPrimaryWrites and ElecOnlyByElection (action properties) over all interleavings of open/announce/operate/close of 2-3 sessions on an id lattice spanning both 64-bit halves; TLC-emitted message sequences and seeded random profiles are driven through the real server.Modify on in-process streams; every RIB call that the specification does not allow at that point (ribCallUnexpected), every state change outside such a call and every divergence of the session's recorded election id are reported.",
    note="message grain: sessions are driven one message at a time (lock-level interleavings inside one message are C11's subject); trusted: TLC, hooks, in-process stream"),
  "C05": dict(ref="DESIGN.md 5/C05", engine="GribiServer",
-   text="TLC checks ElecIsMax (learnt id = maximum announced, 128-bit order), ElecMonotone and LowerNeverSteals on all announcement sequences of 3 sessions over a 3x3 id lattice; on the real server every election reply, the learnt id and the primary are compared after every message (ids concretised order-preservingly to uint64 boundary values 1, 5, 2^32, 2^63, 2^64-1).",
+   text="TLC checks ElecIsMax (learnt id = maximum announced, 128-bit order), ElecMonotone and LowerNeverSteals on all announcement sequences of 3 sessions over a 3x3 id lattice; every sequence of parameter / election messages of two (three) sessions over a single id (ties, re-announcements) is emitted exhaustively; on the real server every election reply, the learnt id and the primary are compared after every message (ids concretised order-preservingly to uint64 boundary values 1, 5, 2^32, 2^63, 2^64-1).",
    note="abstract ids are ranks into a table of six uint64 values per half; sequential announcements (concurrent ones: C11)"),
  "C06": dict(ref="DESIGN.md 5/C06", engine="GribiServer",
    text="The specification derives, per operation, the exact ModifyResponse (RIB then FIB acks per acknowledged id, FAILED per failed id) from the RIB call's result or from the server's own checks; TLC checks OneVerdict; on the real server every response is compared, extra, missing, misordered and foreign results are reported; held operations resolved by later operations and hand-overs of the primary role are part of the driven histories. One open known finding (held operation answered on another session's stream).",
@@ -63,10 +63,12 @@ CHECKS.update({
    tech="explicit TLA+ spec at critical-section grain (TLC) + trace validation of concurrent runs; race detector as observer"),
  "C13": dict(ref="DESIGN.md 5/C13", engine="GribiClient",
    text="GribiClient models Q/StartSending/the receiver's handling of every response kind/AwaitConverged; TLC checks Conservation, NeverTwice and ConvergedMeansAnswered over all batches against all server behaviours (reordering across ids, batching, RIB before FIB, election/parameter responses, unknown ids, repeated terminal results, multi-field responses) and emits sequences; on the real client (scripted stub stream) pending operations, results with their operation type/key, error counts, what reached the stream and the AwaitConverged verdict are compared after every step; Status() snapshots taken concurrently with the receiver - one of them held at a gate between its two reads while a response is handled - must account for every operation. One open known finding.",
-   note="the sender goroutine is eager (harness waits for its Send); ids unique in TLC-emitted sequences"),
+   note="call grain: the sender goroutine is eager (harness waits for its Send); goroutine grain: see C14; ids unique in TLC-emitted sequences except deliberate clashes with a pending id",
+   engine2="GribiClient+GribiClientProc"),
  "C14": dict(ref="DESIGN.md 5/C14", engine="GribiClient",
-   text="Same specification with the fault actions: a failed Send after n messages (which breaks the stream for the receiver too), a receive error, a clean end of stream, and a burst of Q calls while Send is stuck and then fails; after each the specification requires the recorded errors, the AwaitConverged verdict 'err', every Q call to return, Close/Reset to return with no client goroutine left (goroutine census) and a fresh client after Reset+Connect. A call that does not return within the watchdog is reported with the blocked frames.",
-   note="stub stream (no real transport); goroutines are counted by stack census of the client package"),
+   text="Same specification with the fault actions: a failed Send after n messages (which breaks the stream for the receiver too), a receive error, a clean end of stream, and a burst of Q calls while Send is stuck and then fails; after each the specification requires the recorded errors, the AwaitConverged verdict 'err', every Q call to return, Close/Reset to return with no client goroutine left (goroutine census) and a fresh client after Reset+Connect. A call that does not return within the watchdog is reported with the blocked frames. Goroutine grain (GribiClientProc): the application, sender and receiver goroutines, the modify channel (capacity 5), the sender-exit channel, the awaiting RWMutex with Go's writer preference, the wait group and the done channel are modelled step by step; TLC checks every interleaving of small instances for NoPanic, CloseLeavesNoGoroutine, AwaitSound, AwaitReportsErrors, ResetIsFresh and - under weak fairness - that every Q / AwaitConverged / Close / Reset call returns whatever fault the stream suffers (the design before fix 9773e1f fails QReturns); TLC-generated schedules of the instance with the real capacity are replayed goroutine step by goroutine step through scheduler gates in the real client, and TLC validates after every step where each goroutine is parked and the observable state.",
+   note="stub stream (no real transport); goroutines are counted by stack census of the client package; which ready case a Go select takes cannot be forced (logged, schedule cut there)",
+   engine2="GribiClient+GribiClientProc"),
 })
 CHECKS["C19"] = dict(ref="DESIGN.md 5/C19", engine="GribiServer",
    text="The unmodified compliance suite runs against one long-lived reference server per forward-reference mode (bufconn) in permuted orders and with different starting election ids: every test must meet its expected verdict whatever ran before it, and the complete wire trace of the run (every ModifyRequest/Response, Get, Flush, with the server's RIB and session state) is validated by TLC against GribiServer - so the suite's verdicts are tied to a server the specification accepts. A catalogue of wrappers that break exactly one protocol requirement (no FIB ack, Get withholds an entry, Flush ignored, election response echoes the request, repeated session parameters accepted) is run against the tests written for that requirement (spec/compliance_map.json): each must fail, and TLC must reject the wrapper's wire trace at that requirement.",
@@ -91,14 +93,15 @@ def main():
                 "thorough_cmd": f"./check {pid} --tier thorough",
                 "evidence_file": f"/verif/evidence/{pid}.json",
                 "replay_cmd_template": f"./check {pid} --replay {{path}}",
-                "engine": c["engine"],
+                "engine": c.get("engine2", c["engine"]),
                 "level_claimed": {"category": "model_checking", "text": c["text"], "design_ref": c["ref"]},
                 "level_note": c["note"],
                 "technique": c.get("tech", TECH),
             })
         else:
             na.append({"property_id": pid, "reason": NA.get(pid, "check not built yet in this round; see DESIGN.md section 10 (build order)")})
-    hooks = json.load(open(os.path.join(ROOT, "tools", "hook_commits.json")))
+    import subprocess
+    hooks = subprocess.run(["git", "-C", "/repo", "log", "--reverse", "--format=%H", "--grep=^verif:"], capture_output=True, text=True, check=True).stdout.split()
     m = {
         "version": 1,
         "setup_cmd": "cd /verif/harness && cp /repo/go.sum . && GOFLAGS=-mod=mod GOPROXY=off go build -tags verif -o /verif/.cache/vh-warm ./cmd/vh && rm -f /verif/.cache/vh-warm",
@@ -114,6 +117,7 @@ def main():
              "kind_free_text": "TLA+ spec of rib/rib.go; GribiRIB_MC (bounded instance, input emission), GribiRIBTrace (trace validation); Go harness /verif/harness (vh rib-run)"},
             {"name": "GribiServerCS", "path": "/verif/spec/GribiServerCS.tla", "serves_properties": ["C11"], "kind_free_text": "critical-section grain spec + GribiServerCS_MC + GribiServerCSTrace; vh conc-run built with -race"},
             {"name": "GribiClient", "path": "/verif/spec/GribiClient.tla", "serves_properties": ["C13", "C14"], "kind_free_text": "client library spec + GribiClient_MC + GribiClientTrace; vh client-run with scripted stub stream"},
+            {"name": "GribiClientProc", "path": "/verif/spec/GribiClientProc.tla", "serves_properties": ["C13", "C14"], "kind_free_text": "goroutine-grain spec of the client (application, sender, receiver, channels, RWMutex) + GribiClientProc_MC (safety, schedule emission) + GribiClientProc_Live (termination under fairness) + GribiClientProcTrace; vh proc-run replays schedules through the client's scheduler gates"},
             {"name": "GribiReconcile", "path": "/verif/spec/GribiReconcile.tla", "serves_properties": ["C15"], "kind_free_text": "plan specification + GribiReconcile_MC + GribiReconcileTrace; vh recon-run"},
             {"name": "GribiChk", "path": "/verif/spec/GribiChk.tla", "serves_properties": ["C17"], "kind_free_text": "verdict specification + GribiChk_MC (case enumeration) + GribiChkTrace; vh chk-run"},
             {"name": "GribiFluent", "path": "/verif/spec/GribiFluent.tla", "serves_properties": ["C18"], "kind_free_text": "builder/queue specification + GribiFluent_MC (program generation) + GribiFluentTrace; vh fluent-run"},
